@@ -817,3 +817,129 @@ func (c *fctx) ifaceResult(rhs ast.Expr, i int, l ast.Expr) bool {
 	c.ifaceLocals[v] = true
 	return true
 }
+
+// sliceExpr: a[lo:hi] (also a[lo:], a[:hi]) as a VALUE: go_slice a lo hi.  Go shares the backing
+// array; here the result is an independent list, so a variable bound to a slice expression must
+// never be written through (checked), and three-index slices are refused.
+func (c *fctx) sliceExpr(x *ast.SliceExpr) string {
+	if x.Slice3 {
+		c.fail(x.Pos(), "three-index slice expression")
+	}
+	t := c.typeOf(c.info.TypeOf(x.X), x.Pos())
+	if t.k != kSlice {
+		c.fail(x.Pos(), "slice expression on something other than a slice")
+	}
+	// the sliced variable and any variable the result is bound to must not be written in this function
+	ast.Inspect(c.u.decl.Body, func(n ast.Node) bool {
+		if as, ok := n.(*ast.AssignStmt); ok {
+			for i, r := range as.Rhs {
+				if unparen(r) == ast.Expr(x) && i < len(as.Lhs) {
+					if id, isId := as.Lhs[i].(*ast.Ident); isId {
+						v := c.info.Defs[id]
+						if v == nil {
+							v = c.info.Uses[id]
+						}
+						c.noIndexWrites(v, id.Name)
+					} else {
+						c.fail(as.Pos(), "slice expression stored into something other than a variable")
+					}
+				}
+			}
+		}
+		return true
+	})
+	a := c.expr(x.X)
+	lo, hi := "(0)%Z", fmt.Sprintf("(go_len %s)", a)
+	if x.Low != nil {
+		lo = c.indexTerm(x.Low)
+	}
+	if x.High != nil {
+		hi = c.indexTerm(x.High)
+	}
+	return fmt.Sprintf("(go_slice %s %s %s)", a, lo, hi)
+}
+
+// noIndexWrites: variable v is never the root of an indexed assignment, copy target or in-place sort.
+func (c *fctx) noIndexWrites(v types.Object, name string) {
+	if v == nil {
+		return
+	}
+	ast.Inspect(c.u.decl.Body, func(n ast.Node) bool {
+		switch s := n.(type) {
+		case *ast.AssignStmt:
+			for _, l := range s.Lhs {
+				if _, isIdx := unparen(l).(*ast.IndexExpr); isIdx && c.rootVar(l) == v {
+					c.fail(l.Pos(), "write through %s, which is bound to a slice expression (sub-slices share memory in Go)", name)
+				}
+			}
+		case *ast.IncDecStmt:
+			if _, isIdx := unparen(s.X).(*ast.IndexExpr); isIdx && c.rootVar(s.X) == v {
+				c.fail(s.Pos(), "write through %s, which is bound to a slice expression", name)
+			}
+		case *ast.ExprStmt:
+			if call, ok := s.X.(*ast.CallExpr); ok {
+				for _, a := range call.Args {
+					if c.rootVar(a) == v {
+						c.fail(s.Pos(), "%s, which is bound to a slice expression, is passed to a call statement", name)
+					}
+				}
+			}
+		}
+		return true
+	})
+}
+
+// inPlaceOpaqueLit: the statement f(&T{a, b, ...}) of an opaque function without results whose
+// argument is a struct literal made of local slice variables (sort.Sort(&pairSlice{xs, ys})):
+// the variables become the fields of (f (mk_T a b ...)).
+func (c *fctx) inPlaceOpaqueLit(call *ast.CallExpr) (string, bool) {
+	f := c.calledFunc(call)
+	if f == nil || len(call.Args) != 1 {
+		return "", false
+	}
+	name, ok := c.opaqueName(f)
+	if !ok || f.Type().(*types.Signature).Results().Len() != 0 {
+		return "", false
+	}
+	ue, ok := unparen(call.Args[0]).(*ast.UnaryExpr)
+	if !ok || ue.Op != token.AND {
+		return "", false
+	}
+	cl, ok := unparen(ue.X).(*ast.CompositeLit)
+	if !ok {
+		return "", false
+	}
+	t := c.typeOf(c.info.TypeOf(cl), cl.Pos())
+	if t.k != kRec {
+		c.fail(call.Pos(), "opaque in-place function %s applied to the address of a non-struct literal", name)
+	}
+	r := c.record(t.rec, cl.Pos())
+	if len(r.omitted) > 0 || len(cl.Elts) != len(r.fields) {
+		c.fail(call.Pos(), "opaque in-place function %s: the struct literal must give every field", name)
+	}
+	var vars []types.Object
+	for _, el := range cl.Elts {
+		if _, isKV := el.(*ast.KeyValueExpr); isKV {
+			c.fail(el.Pos(), "opaque in-place function %s: keyed struct literal", name)
+		}
+		id, isId := unparen(el).(*ast.Ident)
+		if !isId {
+			c.fail(el.Pos(), "opaque in-place function %s: the struct literal must consist of slice variables", name)
+		}
+		o := c.info.Uses[id]
+		if o == nil || !c.known(o) {
+			c.fail(el.Pos(), "opaque in-place function %s: %s is not a local variable", name, id.Name)
+		}
+		vars = append(vars, o)
+	}
+	arg := c.expr(cl)
+	rt := r.name + "_rec"
+	c.addOpq(opq{name: name, typ: rt + " -> " + rt}, call.Pos())
+	tmp := c.fresh("sorted")
+	out := fmt.Sprintf("let %s := (%s %s) in\n", tmp, name, arg)
+	for i, o := range vars {
+		n := c.bind(o, o.Name())
+		out += fmt.Sprintf("let %s := (%s_%s %s) in\n", n, r.name, r.fields[i].name, tmp)
+	}
+	return out, true
+}
